@@ -22,10 +22,11 @@ VARIABLES tid,        \* trace being validated
           recv0,      \* Len(recv) when the outstanding call started
           tbl,        \* run(): response kind of every event, in the order of the event table (<<>>: not inside run())
           owe,        \* run(): the last outcome selected an event whose response (a string) has not been sent yet
+          fl0,        \* readlines() / iteration: Len(obsHanded) when the composite call started (-1: none outstanding)
           cmd         \* REPLWrapper: [on, want, acc, intr] - inside run_command: the output the REPL produced for this
                       \* command, the `before`s collected so far, whether SIGINT was sent
 
-tvars == <<recv, pend, handed, eof, phase, call, last, tid, l, verdict, obsHanded, rdy, recv0, tbl, owe, cmd>>
+tvars == <<recv, pend, handed, eof, phase, call, last, tid, l, verdict, obsHanded, rdy, recv0, tbl, owe, cmd, fl0>>
 
 NoCmd == [on |-> FALSE, want |-> <<>>, acc |-> <<>>, intr |-> FALSE]
 
@@ -33,11 +34,11 @@ Ev == Traces[tid].ev
 E  == Ev[l]
 Has(e) == l <= Len(Ev) /\ verdict = "ok" /\ E.e = e
 
-Step == l' = l + 1 /\ tid' = tid
+Step == l' = l + 1 /\ tid' = tid /\ (IF l <= Len(Ev) /\ E.e \in {"flstart", "fllines"} THEN TRUE ELSE fl0' = fl0)
 Fail(v) == verdict' = v /\ UNCHANGED avars
 Same == UNCHANGED <<verdict>>
 
-TInit == /\ AInit /\ tid = 1 /\ l = 1 /\ verdict = "ok" /\ obsHanded = <<>> /\ rdy = 0 /\ recv0 = 0 /\ tbl = <<>> /\ owe = FALSE /\ cmd = NoCmd
+TInit == /\ AInit /\ tid = 1 /\ l = 1 /\ verdict = "ok" /\ obsHanded = <<>> /\ rdy = 0 /\ recv0 = 0 /\ tbl = <<>> /\ owe = FALSE /\ cmd = NoCmd /\ fl0 = -1
 
 FirstFailing(cs) ==   \* cs: sequence of <<holds, name>>
   LET bad == {i \in 1..Len(cs) : ~cs[i][1]} IN
@@ -223,6 +224,25 @@ TFlRet ==
      IN verdict' = IF E.val = want THEN "ok" ELSE "C01:file-like-return-value"
   /\ Step /\ UNCHANGED <<avars, obsHanded, rdy, recv0, tbl, owe, cmd>>
 
+\* readlines() and iteration are loops of readline(): the lines returned, concatenated, are exactly what
+\* those calls handed back; every line but the last ends with the line separator; none is empty
+TFlStart ==
+  /\ Has("flstart")
+  /\ fl0' = Len(obsHanded) /\ Same
+  /\ Step /\ UNCHANGED <<avars, obsHanded, rdy, recv0, tbl, owe, cmd>>
+
+TFlLines ==
+  /\ Has("fllines")
+  /\ LET got == Flatten(E.lines)
+         n == Len(E.lines)
+     IN verdict' = FirstFailing(<<
+          <<fl0 >= 0, "harness:fllines-without-flstart">>,
+          <<got = Drop(obsHanded, fl0), "C01:readlines-iteration-lost-or-duplicated-text">>,
+          <<\A i \in 1..n : E.lines[i] # <<>>, "C01:readlines-returned-an-empty-line">>,
+          <<\A i \in 1..(n - 1) : IsSuffixOf(E.sep, E.lines[i]), "C01:line-does-not-end-with-the-separator">> >>)
+  /\ fl0' = -1
+  /\ Step /\ UNCHANGED <<avars, obsHanded, rdy, recv0, tbl, owe, cmd>>
+
 \* the contract's own invariants are evaluated after every event (they hold by
 \* construction: a violation here is a bug of the specification, status 2)
 
@@ -230,11 +250,11 @@ TNextTrace ==
   /\ (l > Len(Ev) \/ verdict # "ok")
   /\ PrintT(<<"VERDICT", tid, Traces[tid].id, verdict, l>>)
   /\ tid < Len(Traces)
-  /\ tid' = tid + 1 /\ l' = 1 /\ verdict' = "ok" /\ obsHanded' = <<>> /\ rdy' = 0 /\ recv0' = 0 /\ tbl' = <<>> /\ owe' = FALSE /\ cmd' = NoCmd
+  /\ tid' = tid + 1 /\ l' = 1 /\ verdict' = "ok" /\ obsHanded' = <<>> /\ rdy' = 0 /\ recv0' = 0 /\ tbl' = <<>> /\ owe' = FALSE /\ cmd' = NoCmd /\ fl0' = -1
   /\ recv' = <<>> /\ pend' = <<>> /\ handed' = <<>> /\ eof' = FALSE
   /\ phase' = "idle" /\ call' = NoCall /\ last' = NoOutcome
 
-TNext == TCall \/ TCmd \/ TKill \/ TCmdRet \/ TRunStart \/ TSend \/ TCb \/ TRunRet \/ TLate \/ TRead \/ TReadEof \/ TReadTmo \/ TReadErr \/ TSetBuf \/ TRet \/ TFlRet \/ TNextTrace
+TNext == TCall \/ TFlStart \/ TFlLines \/ TCmd \/ TKill \/ TCmdRet \/ TRunStart \/ TSend \/ TCb \/ TRunRet \/ TLate \/ TRead \/ TReadEof \/ TReadTmo \/ TReadErr \/ TSetBuf \/ TRet \/ TFlRet \/ TNextTrace
 
 TraceSpec == TInit /\ [][TNext]_tvars
 
